@@ -327,12 +327,19 @@ def check(ctx, case):
         f = x.astype(object)
         if int(f.max()) - int(f.min()) > np.iinfo(x.dtype).max:
             classes.append("int_span_exceeds_dtype_max")
+    lims = _oracle_limits(interval, x)
+    if not (math.isfinite(lims[0]) and math.isfinite(lims[1])):
+        ctx.exclude("non_finite_limits")
+        return
+    work = np.float32 if x.dtype == np.float32 else np.float64
+    if 0 < lims[1] - lims[0] < 4 * float(np.finfo(work).tiny):
+        # the span of the limits is a subnormal number of the working precision: dividing by it
+        # underflows/overflows.  Like overflow of the span this is outside the claimed domain.
+        ctx.exclude("span_underflows_working_precision")
+        return
     ctx.record(case, is_int or has_nan or stretch_nondefault, classes)
 
     eps = _eps(x.dtype, kw)
-    lims = _oracle_limits(interval, x)
-    if not (math.isfinite(lims[0]) and math.isfinite(lims[1])):
-        return
     xin = x.copy()
     if via == "direct":
         with ctx.sut(case, "CustomNormalization(...)(x)"):
